@@ -77,7 +77,7 @@ def unify(a, b):
 
 # ------------------------------------------------------------------------------------------------ function table
 class Fn:
-    def __init__(self, name, coq, params, ret=None, cls=None, state=None, ret_union=False, fuel=False, pure=False, mutates=(), abstract=False, returns_state=(), locals_=None, es_mut=(), narrow=(), at_mut=(), drop_calls=()):
+    def __init__(self, name, coq, params, ret=None, cls=None, state=None, ret_union=False, fuel=False, pure=False, mutates=(), abstract=False, returns_state=(), locals_=None, es_mut=(), narrow=(), at_mut=(), drop_calls=(), drop_attr_calls=()):
         self.name, self.coq, self.params, self.ret, self.cls = name, coq, params, ret, cls
         self.state = state or []          # [(key, coqname, type)] read from self.epistemic_state
         self.ret_union = ret_union        # `return False, x` / `return v, x`  ->  (PFalse, x) / (PVal v, x)
@@ -89,6 +89,7 @@ class Fn:
         self.locals_ = dict(locals_ or {})       # declared types of local variables (Optional[int] cannot be inferred)
         self.returns_state = list(returns_state)   # parameters (solver objects) whose final state is returned with the result
         self.narrow = list(narrow)        # Optional[int] locals read as int under `if x is not None:` (x is not re-bound there)
+        self.drop_attr_calls = list(drop_attr_calls)   # self.<attr>.append(...) statements left out (bookkeeping outside the modelled state, named in DESIGN.md)
         self.drop_calls = list(drop_calls)  # methods of self called as statements for bookkeeping outside the modelled state (named in DESIGN.md)
         self.at_mut = list(at_mut)        # [(attr, type)]: attributes of self the function writes; passed in and returned
         self.es_mut = list(es_mut)        # [(key, type)]: entries of self.epistemic_state the function writes; passed in and returned
@@ -256,6 +257,14 @@ class X:
         c, t, b = self.tx(e.value, env)
         if t == "preocf" and e.attr == "ranks":
             return c, ("wdict", "optint"), b
+        if t == "ptree" and e.attr in ("left", "right"):
+            nm = self.ctx.fresh()
+            return nm, "ptree", b + [(nm, "pt_%s %s" % (e.attr, c), "cbind")]
+        if t == "ptree" and e.attr == "atom":
+            return c, "ptree_atom", b
+        if t == "ptree_atom" and e.attr == "text":
+            nm = self.ctx.fresh()
+            return nm, "string", b + [(nm, "pt_atom_text %s" % c, "cbind")]
         if t == "preocf_s" and e.attr == "ranks":
             return "(fst %s)" % c, ("wdict", "optint"), b
         if t == "preocf_s" and e.attr == "signature":
@@ -784,6 +793,11 @@ class X:
         if name == "bool":
             c, b = self.truth(e.args[0], env)
             return c, "bool", b
+        if name == "str" and self.ctx.consts.get("@strings") and len(e.args) == 1 and not e.keywords:
+            c, t, b = self.tx(e.args[0], env)
+            if t == "string":
+                return c, "string", b
+            return "tt", "str", b
         if name == "str":
             return "tt", "str", []
         if name == "min" and len(e.args) == 1 and not e.keywords and isinstance(e.args[0], (ast.GeneratorExp, ast.ListComp)):
@@ -881,6 +895,22 @@ class X:
                 return "(IAnd %s)" % c, "icon", b
             if name == "And" and t == ("list", "form"):
                 return "(f_and_list %s)" % c, "form", b
+        if name == "str" and len(e.args) == 1 and not e.keywords:
+            c, t, b = self.tx(e.args[0], env)
+            if t == "string":
+                return c, "string", b
+            return "tt", "str", b
+        if name == "Bool" and len(e.args) == 1 and isinstance(e.args[0], ast.Constant) and e.args[0].value in (True, False):
+            return ("FTop" if e.args[0].value else "FBot"), "form", []
+        if name == "Symbol" and len(e.args) == 2 and isinstance(e.args[1], ast.Name) and e.args[1].id == "BOOL":
+            c, t, b = self.tx(e.args[0], env)
+            fn = self.ctx.table.get("@name_index")
+            if t != "string" or fn is None:
+                fail(e, "Symbol of %r" % (t,))
+            if fn not in self.ctx.fn.uses:
+                self.ctx.fn.uses.append(fn)
+            nm = self.ctx.fresh("r")
+            return "(FVar (Z.to_nat %s))" % nm, "form", b + [(nm, "(%s %s)" % (fn.coq, c), "call")]
         if name in ("FALSE", "TRUE") and not e.args and not e.keywords:
             return ("FBot" if name == "FALSE" else "FTop"), "form", []
         if name == "dict" and len(e.args) == 1 and not e.keywords:
@@ -1148,6 +1178,9 @@ class X:
             if ft != "form":
                 fail(e, "eval of %r" % (ft,))
             return "(eval %s %s)" % (c, fc), "bool", b + fb
+        if t == "ptree" and f.attr == "formula" and not e.args and not e.keywords:
+            nm = self.ctx.fresh()
+            return nm, "ptree", b + [(nm, "pt_formula %s" % c, "cbind")]
         if t == "str" and f.attr == "replace" and len(e.args) == 2 and not e.keywords:
             return "tt", "str", b        # text used for display only
         if t == "form" and not e.keywords:
@@ -1391,6 +1424,10 @@ class B:
                     and s.value.func.value.id == "self" and s.value.func.attr in self.ctx.fn.drop_calls):
                 continue
             if isinstance(s, ast.Import) and all(a.name == "time" for a in s.names):
+                continue
+            if (isinstance(s, ast.Expr) and isinstance(s.value, ast.Call) and isinstance(s.value.func, ast.Attribute) and s.value.func.attr == "append"
+                    and isinstance(s.value.func.value, ast.Attribute) and isinstance(s.value.func.value.value, ast.Name) and s.value.func.value.value.id == "self"
+                    and s.value.func.value.attr in self.ctx.fn.drop_attr_calls):
                 continue
             if isinstance(s, ast.If) and self.is_logging_if(s):
                 continue
@@ -1950,8 +1987,8 @@ class B:
 
 
 # ------------------------------------------------------------------------------------------------ driver
-COQ_TYPES = {"bool": "bool", "int": "Z", "form": "form", "cond": "cond", "solver": "solver", "str": "unit", "none": "unit",
-             "bb": "pybase", "deadline": "unit", "wcnf": "wcnf", "sclause": "sclause", "optimizer": "unit", "tseitin": "unit", "world": "world", "zopt": "zopt", "optint": "(option Z)", "preocf": "(wdict (option Z))", "preocf_s": "((wdict (option Z)) * (list Z))", "string": "string", "pool": "unit", "iterm": "iterm", "icon": "icon", "isolver": "(list icon)", "symidx": "symidx", "float": "unit"}
+COQ_TYPES = {"ptree_atom": "ptree", "bool": "bool", "int": "Z", "form": "form", "cond": "cond", "solver": "solver", "str": "unit", "none": "unit",
+             "bb": "pybase", "deadline": "unit", "wcnf": "wcnf", "sclause": "sclause", "optimizer": "unit", "tseitin": "unit", "world": "world", "zopt": "zopt", "optint": "(option Z)", "preocf": "(wdict (option Z))", "preocf_s": "((wdict (option Z)) * (list Z))", "string": "string", "ptree": "ptree", "pool": "unit", "iterm": "iterm", "icon": "icon", "isolver": "(list icon)", "symidx": "symidx", "float": "unit"}
 
 
 def coq_type(t):
@@ -2367,6 +2404,15 @@ TARGETS = [
         Fn("consistency_diagnostics", "py_consistency_diagnostics",
            [("belief_base", "bb"), ("extended", "bool"), ("uses_facts", "bool"), ("facts", ("list", "form")), ("solver", "str"), ("precomputed", "none"), ("on_inconsistent", "string")],
            locals_={"diag": ("sdict", "bool"), "base_part_ext": ("res", PART_OBJ)}),
+    ]),
+    dict(out="SrcVisit", file="parser/myVisitor.py", requires=[], extra_imports=["PyStr", "PyTree"], consts={"@strings": True}, funcs=[
+        Fn("visit", "m_visit", [("tree", "ptree")], cls="myVisitor", ret="form", abstract=True),
+        Fn("@name_index", "m_name_index", [("name", "string")], ret="int", abstract=True),
+        Fn("visitOr", "py_visitOr", [("ctx", "ptree")], cls="myVisitor"),
+        Fn("visitAnd", "py_visitAnd", [("ctx", "ptree")], cls="myVisitor"),
+        Fn("visitNegation", "py_visitNegation", [("ctx", "ptree")], cls="myVisitor"),
+        Fn("visitParen", "py_visitParen", [("ctx", "ptree")], cls="myVisitor"),
+        Fn("visitVar", "py_visitVar", [("ctx", "ptree")], cls="myVisitor", drop_attr_calls=["sigcheck"]),
     ]),
     dict(out="SrcP", file="inference/p_entailment.py", requires=["SrcCond", "SrcCons"], funcs=[
         Fn("_inference", "py_PEntailment_inference", [("query", "cond"), ("weakly", "bool"), ("deadline", "deadline")],
